@@ -6,7 +6,7 @@ import cbor2
 from cryptography.hazmat.primitives.asymmetric import ec, rsa, ed25519, padding
 from cryptography.hazmat.primitives import hashes, serialization
 
-KEYDIR = "/verif/build/keys"
+KEYDIR = os.path.join(os.path.dirname(os.path.dirname(os.path.abspath(__file__))), "build", "keys")
 HASH = {"SHA1": hashes.SHA1, "SHA256": hashes.SHA256, "SHA384": hashes.SHA384, "SHA512": hashes.SHA512}
 
 # credential kinds: name -> (key family, curve or None, COSE alg, scheme)
